@@ -373,7 +373,7 @@ fn replay_file(model: &mut Model, report: &mut Report, modelled: &[String], path
 
 pub fn run(report: &mut Report, replay: Option<&str>) {
     let thorough = report.is_thorough();
-    let programs_per_thread: usize = if thorough { 400 } else { 40 };
+    let programs_per_thread: usize = if thorough { 2500 } else { 90 };
     let threads = 14;
     report.rule = "(a) type-directed random Lua 5.1 programs (closures, upvalues, shadowing, varargs, multiple returns, \
         effectful metamethods, loops with break, method calls, dead code) and (b) targeted programs (progen_c01: every small \
